@@ -146,9 +146,25 @@ def _concrete_reads(k, remaining):
     return m
 
 
-def replay_reader_edge(case):
+class _RefReaderFacade:
+    """The reference reader M3 behind EoReader's public names (to replay the TLC graph on M3 as well)."""
+
+    def __init__(self, data):
+        from .refmodels import RefReader
+
+        self._r = RefReader(bytes(data))
+
+    chunked_reading_mode = property(lambda self: self._r.chunked, lambda self, v: setattr(self._r, "chunked", bool(v)))
+    position = property(lambda self: self._r.pos)
+    remaining = property(lambda self: self._r.remaining)
+
+    def __getattr__(self, name):
+        return getattr(self._r, name)
+
+
+def replay_reader_edge(case, reader_cls=None):
     """case: {data: [D/B...], path: [last records as dicts], action: last record of the target, target: {pos, chunked, chunkStart}, fill}"""
-    R = loader.lib("eolib.data.eo_reader").EoReader
+    R = reader_cls or loader.lib("eolib.data.eo_reader").EoReader
     fills = [int(case["fill"])] if case.get("fill") is not None else CONCRETE_D
     for fill in fills:
         data = bytes(0xFF if c == "B" else fill for c in case["data"])
@@ -231,11 +247,14 @@ def run_reader_conformance():
             "action": parse_record(sb["last"]),
             "target": {"pos": sb["pos"], "chunked": sb["chunked"], "chunkStart": sb["chunkStart"], "remaining": _model_remaining(sb)},
         }
+        drift = replay_reader_edge(case, _RefReaderFacade)
+        if drift:
+            raise loader.HarnessError(f"reference reader M3 and ChunkedReader.tla disagree on edge {action}: {drift}")
         what = replay_reader_edge(case)
         replayed += 1
         if what and len(violations) < 3:
             violations.append({"key": f"tlc-edge:reader:{action.split('(')[0]}", "what": f"TLC edge {action}: {what}", "case": case})
-    cov = dict(stats, edges_replayed=replayed, concretisations=len(CONCRETE_D), model="tla/ChunkedReader.tla")
+    cov = dict(stats, edges_replayed=replayed, edges_replayed_on_reference_model=replayed, concretisations=len(CONCRETE_D), model="tla/ChunkedReader.tla")
     return {"coverage": cov, "violations": violations}
 
 
@@ -259,6 +278,21 @@ def replay_sequencer_edge(case):
     return None
 
 
+def _ref_sequencer_edge(case):
+    from .refmodels import RefSequencer
+
+    m = RefSequencer(int(case["init"]))
+    for rec in case["path"] + [case["action"]]:
+        op = rec["op"].strip('"')
+        if op == "set":
+            m.set_start(int(rec["arg"]))
+        elif op == "next":
+            r = m.next_sequence()
+            if rec is case["action"] and r != int(rec["outA"]):
+                return f"reference returns {r}, the TLA+ model {rec['outA']}"
+    return None
+
+
 def run_sequencer_conformance():
     stats, nodes, edges, initial = run_tlc("Sequencer")
     states = {n: parse_state(l) for n, l in nodes.items()}
@@ -269,6 +303,9 @@ def run_sequencer_conformance():
         init = parse_record(states[p[0]]["last"])["arg"]
         recs = [parse_record(states[n]["last"]) for n in p[1:]]
         case = {"kind": "tlc-edge", "init": init, "path": recs, "action": parse_record(states[b]["last"])}
+        drift = _ref_sequencer_edge(case)
+        if drift:
+            raise loader.HarnessError(f"reference sequencer M7 and Sequencer.tla disagree on edge {action}: {drift}")
         what = replay_sequencer_edge(case)
         replayed += 1
         if what and len(violations) < 3:
